@@ -86,6 +86,22 @@ theorem dispatch_is_spec : Facts.C23.dispatch =
      (0x347773c5, "handlePong"), (0x62d6b459, "handleAck"), (0x3072cfa1, "handleGZIP"),
      (0x276d3ec6, "nil"), (0x809db6df, "nil")] := by decide
 
+/-- The body of every handler has the effect signature the model implements (decodes,
+notifications with the id expression they pass, state changes, recursive calls; AST walk in source
+order).  A handler whose body changes drops out of `dispatch` ("unknown:…"), so `dispatch_is_spec`
+breaks as well. -/
+theorem effects_are_spec : Facts.C23.effects =
+    [("gzip", "decode:proto.GZIP"),
+     ("handleAck", "decode:mt.MsgsAck,NotifyAcks:ack.MsgIDs"),
+     ("handleBadMsg", "decode:mt.BadMsgNotification,NotifyError:bad.BadMsgID,decode:mt.BadServerSalt,NotifyError:bad.BadMsgID"),
+     ("handleContainer", "decode:proto.MessageContainer,processContainerMessage"),
+     ("handleFutureSalts", "decode:mt.FutureSalts,salts.Store:res.Salts"),
+     ("handleGZIP", "gzip,handleMessage"),
+     ("handlePong", "decode:mt.Pong,close,delete:c.ping"),
+     ("handleResult", "decode:proto.Result,gzip,decode:mt.RPCError,NotifyError:res.RequestMessageID,handlePong,NotifyResult:res.RequestMessageID"),
+     ("handleSessionCreated", "decode:mt.NewSessionCreated,gotSession.Signal,storeSalt:s.ServerSalt,OnSession"),
+     ("processContainerMessage", "handleMessage")] := by decide
+
 theorem default_is_OnMessage : Facts.C23.defaultIsOnMessage = true := by decide
 theorem container_decoded_before_handling : Facts.C23.containerDecodedFirst = true := by decide
 theorem max_container_message_is_1MiB : Facts.C23.maxContainerMessage = 1048576 := by decide
